@@ -84,11 +84,15 @@ func RunCase(c *Case) (out *Outcome, err error) {
 	simrt.Hooks = e.fs.Hooks()
 	defer func() { simrt.Hooks = simrt.OSHooks{} }()
 
-	old := debug.SetGCPercent(-1)
-	defer func() {
-		debug.SetGCPercent(old)
-		runtime.GC()
-	}()
+	if c.Flags["leakCheck"] {
+		// no collection while descriptors are being counted: a finalizer must
+		// not close a leaked *os.File behind the oracle's back
+		old := debug.SetGCPercent(-1)
+		defer func() {
+			debug.SetGCPercent(old)
+			runtime.GC()
+		}()
+	}
 
 	pol := simrt.Policy{Kind: c.Policy.Kind, Sticky: c.Policy.Sticky, DriverW: c.Policy.DriverW, BgW: c.Policy.BgW,
 		PAdvance: c.Policy.PAdvance, PctD: c.Policy.PctD, Horizon: c.Policy.Horizon}
@@ -314,12 +318,19 @@ func (e *Exec) storeOptions(o Opts) (moss.StoreOptions, moss.StorePersistOptions
 
 func (e *Exec) open(o Opts, first bool) {
 	e.opts = o
+	// package-level knobs: written only when they change (and never in C17
+	// runs, where the generator pins them) so that the race detector does not
+	// see harness writes racing with a previous run's readers
+	want := 100
 	if o.NaiveSeekMax > 0 {
-		moss.DefaultNaiveSeekToMaxTries = o.NaiveSeekMax
-	} else {
-		moss.DefaultNaiveSeekToMaxTries = 100
+		want = o.NaiveSeekMax
 	}
-	moss.SkipStats = o.SkipStats
+	if moss.DefaultNaiveSeekToMaxTries != want {
+		moss.DefaultNaiveSeekToMaxTries = want
+	}
+	if moss.SkipStats != o.SkipStats {
+		moss.SkipStats = o.SkipStats
+	}
 	switch o.Backing {
 	case "mem":
 		c, err := moss.NewCollection(e.collOptions(o))
@@ -396,7 +407,7 @@ func (e *Exec) onError(err error) {
 
 // onPersistRound runs in the persister task right after a successful round.
 func (e *Exec) onPersistRound() {
-	if e.store == nil || e.viol != nil {
+	if e.store == nil || e.viol != nil || e.c.Drivers != nil {
 		return
 	}
 	defer func() {
